@@ -123,13 +123,16 @@ class C19(Prop):
                 "C19_generated_field_count", "C19_generated_field_count_rest", "C19_generated_field_count_bed3_line",
                 "C19_parse_generated", "C19_header_field_count", "C19_header_field_count_tool",
                 "C19_supplied_schema_verbatim", "C19_stored_is_supplied", "C19_write_pre_total", "C19_default_schema"]
-    RULE = ("generator: rests with 0..40 extra columns (and 41..60, 100, 255, 1000, empty columns); grammar-based autoSql texts "
+    RULE = ("generator: rests with 0..40 extra columns and 41, 60, 100 (thorough 41..60, 100, 150), odd rests (empty columns, blanks), "
+            "and 255 (thorough 255, 1000, 5000, 20000) judged by the oracle alone; grammar-based autoSql texts "
             "(simple/object/table, sized and variable arrays, enum/set, index/unique/primary/auto, 1..6 declarations, random blank "
             "space and comments containing delimiters) with the field counts the grammar intended; every truncation and single-token "
-            "mutations (delete, duplicate, swap, replace from a pool of delimiters/keywords) of them; every string w over the "
-            "alphabet {space ; ( ) [ ] , \" a 1} with |w| <= d appended to each of 29 parser contexts (one case = one context "
-            "extension with all its continuations; quick d=5 for the empty context and 4 otherwise, thorough 7 / 5); non-ASCII "
-            "texts (checked for 'returns' only); one-line bigBeds written by the library and by bedtobigbed with and without a schema. "
+            "mutations (delete, duplicate, swap, upper-case, replace from a pool of delimiters/keywords; thorough: 3 schemas exhaustively) "
+            "of them; every string w over the alphabet {space ; ( ) [ ] , \" a 1} with |w| <= d appended to each of 29 parser contexts "
+            "(one case = one context extension with all its continuations up to 4 more characters; quick d=5 for the empty context and 4 "
+            "otherwise, thorough 7 / 5); non-ASCII texts (checked for 'returns' only); one-line bigBeds written by the library and by "
+            "bedtobigbed with and without a schema (generated n = 0..40, hand-written n+3 field tables, grammar schemas incl. unparsable "
+            "ones, several declarations with different field counts, the D9 witness, a NUL byte). "
             "non-trivial = anything but the empty text; distinct = distinct case text")
     CORRESPONDENCE = ("parse results (declarations, names, types, sizes, index flags, comments, error class) of Model/AutoSql.v = "
                       "bigtools::bed::autosql::parse::parse_autosql; generated text = bed_autosql; stored schema and header field "
@@ -259,6 +262,12 @@ class C19(Prop):
             if i % 3 == 2:
                 text = text[:rng.randrange(len(text))]          # does not parse: the header falls back to 3
             out.append((sx([3, 1 if i % 2 == 0 else 3, text.encode(), b"a\tb"]), ["stored", "stored-supplied-grammar"]))
+        # several declarations with different field counts: the header takes the LAST one the parser returns
+        for k, counts in enumerate([(2, 5), (5, 2), (0, 3), (3, 0), (1, 2, 4), (4, 2, 1, 3), (1, 2, 3, 4, 5), (6, 1, 1, 1, 1, 9)]):
+            text = "".join(multi_decl(j, c) for j, c in enumerate(counts))
+            out.append((sx([3, 1 if k % 2 == 0 else 3, text.encode(), b"a\tb"]), ["stored", "stored-supplied-multi"]))
+            if not quick:
+                out.append((sx([3, 3 if k % 2 == 0 else 1, text.encode(), b""]), ["stored", "stored-supplied-multi"]))
         out.append((sx([3, 1, b'table t "c" ( enum(a, b', b""]), ["stored", "stored-supplied-d9"]))
         out.append((sx([3, 1, b'table t "c" ( int x; "a\x00b" )', b""]), ["stored", "stored-nul"]))
         rng.shuffle(out)               # spread the heavy batch cases over the shards
@@ -299,6 +308,11 @@ class C19(Prop):
             except UnicodeDecodeError:
                 pass                    # the harness takes valid UTF-8 only
         return out
+
+
+def multi_decl(j, nfields):
+    kind = ["table", "simple", "object"][j % 3]
+    return f'{kind} d{j} "decl {j}" (\n' + "".join(f'  uint f{j}x{i}; "field {i}"\n' for i in range(nfields)) + ")\n"
 
 
 def core_bed_autosql_placeholder(n):
